@@ -489,7 +489,8 @@ class Simulation:
             return True
         if op.name in ("replace", "rename") and op.path2 in self.focus_paths:
             return True
-        return op.name == "open_r" and op.path in self.focus_paths
+        # opening the target (for reading: a protocol step of a writer; for writing in place: an external editor)
+        return op.name in ("open_r", "open_c", "utime") and op.path in self.focus_paths
 
     def _is_focus(self, op: Op) -> bool:
         if not self.focus_paths or op.name in ("flock", "sleep"):
